@@ -1,6 +1,6 @@
 ----------------------------- MODULE MC_Exec -----------------------------
 (* Bounded exhaustive exploration of Exec.tla: every abstract program of N slots over the alphabet
-   {plain, jmp t, je t (taken), jne t (not taken), call t, ret, fault}, every instruction limit, every
+   {plain, jmp t, je t (taken), jne t (not taken), call t, ret, pop, fault}, every instruction limit, every
    interleaving of step / execute / extra steps; or (HookMode = "menu") every sequence of up to MaxHooks hooks
    from a menu of outcomes around a fixed program.  The step relation is the one Trace_Exec applies to the
    real code; here it is run by a reference "machine" (hooks in registration order) and the properties
@@ -12,7 +12,7 @@ CONSTANTS N, MaxCalls, HookMode, MaxHooks, DumpEdges
 Slots == 0..(N - 1)
 Tgts  == 0..N                       \* N = code end
 Alphabet == {[kind |-> "plain", tgt |-> 0, cc |-> "", mnem |-> "Nop"], [kind |-> "ret", tgt |-> 0, cc |-> "", mnem |-> "Ret"],
-             [kind |-> "fault", tgt |-> 0, cc |-> "", mnem |-> "Mov"]}
+             [kind |-> "fault", tgt |-> 0, cc |-> "", mnem |-> "Mov"], [kind |-> "pop", tgt |-> 0, cc |-> "", mnem |-> "Pop"]}
             \cup {[kind |-> "jmp", tgt |-> t, cc |-> "", mnem |-> "Jmp"] : t \in Tgts}
             \cup {[kind |-> "jcc", tgt |-> t, cc |-> "e", mnem |-> "Je"] : t \in Tgts}
             \cup {[kind |-> "jcc", tgt |-> t, cc |-> "ne", mnem |-> "Jne"] : t \in Tgts}
@@ -24,9 +24,10 @@ HookMenu == {[when |-> w, mnem |-> m, ret |-> r, stop |-> st] :
                w \in {"before", "after"}, m \in {"Nop", "Jmp"}, r \in {"unhandled", "handled", "error"}, st \in BOOLEAN}
 PlainProg == [i \in Slots |-> [kind |-> "plain", tgt |-> 0, cc |-> "", mnem |-> "Nop"]]
 
-VARIABLES prog, s, flow, log, stack, hooks, lastcalls, nsucc, stopped, toplevel, last, hist
-vars == <<prog, s, flow, log, stack, hooks, lastcalls, nsucc, stopped, toplevel, last, hist>>
-View == <<prog, s, flow, log, stack, hooks, stopped, toplevel>>
+VARIABLES prog, s, flow, log, stack, hooks, lastcalls, nsucc, stopped, toplevel, last, hist,
+          popped     \* a POP has discarded a return address: the record of calls and the stack are out of step from here on
+vars == <<prog, s, flow, log, stack, hooks, lastcalls, nsucc, stopped, toplevel, last, hist, popped>>
+View == <<prog, s, flow, log, stack, hooks, stopped, toplevel, popped>>
 
 Ann(ip) == LET x == prog[ip] IN
   [kind |-> x.kind, ip |-> ip, next |-> ip + 1, cc |-> x.cc, mnem |-> x.mnem,
@@ -41,7 +42,7 @@ Init ==
   /\ flow = <<[ip |-> 0 - 1, target |-> 0, var |-> "call"]>>
   /\ log = AddTrace(<<>>, [ip |-> 0 - 1, target |-> 0, var |-> "call"])
   /\ stack = <<>> /\ lastcalls = <<>> /\ nsucc = 0 /\ stopped = FALSE /\ toplevel = FALSE
-  /\ last = [op |-> "init"] /\ hist = <<>>
+  /\ last = [op |-> "init"] /\ hist = <<>> /\ popped = FALSE
 
 \* the reference machine runs the hooks of a phase in registration order until one ends the chain
 RECURSIVE RunChain(_, _)
@@ -51,37 +52,39 @@ RunChain(H, i) == IF i > Len(H) THEN <<>>
 \* one step of the reference machine: returns [s, flow, log, stack, res, calls, stopped, toplevel]
 StepM(st, fw, lg, sk) ==
   LET g == Gate(st) IN
-  IF g # "go" \/ st.rip \notin Slots THEN [s |-> st, flow |-> fw, log |-> lg, stack |-> sk, res |-> "err", calls |-> <<>>, stop |-> FALSE, top |-> FALSE]
+  IF g # "go" \/ st.rip \notin Slots THEN [s |-> st, flow |-> fw, log |-> lg, stack |-> sk, res |-> "err", calls |-> <<>>, stop |-> FALSE, top |-> FALSE, pop |-> FALSE]
   ELSE
-  LET a == [Ann(st.rip) EXCEPT !.target = IF prog[st.rip].kind = "ret" THEN (IF sk = <<>> THEN 0 ELSE sk[Len(sk)]) ELSE prog[st.rip].tgt]
+  LET a == [Ann(st.rip) EXCEPT !.target = IF prog[st.rip].kind = "ret" THEN (IF sk = <<>> THEN 0 ELSE sk[Len(sk)]) ELSE prog[st.rip].tgt,
+                              \* a POP above the initial stack level reads memory the model does not describe: treated as a fault
+                              !.kind = IF prog[st.rip].kind = "pop" /\ sk = <<>> THEN "fault" ELSE prog[st.rip].kind]
       HB == HooksFor(hooks, a.mnem, "before")
       HA == HooksFor(hooks, a.mnem, "after")
       LB == RunChain(HB, 1)
       rb == PhaseResult(LB, HB)
       cb == [i \in 1..Len(LB) |-> [hid |-> LB[i], when |-> "before"]]
   IN
-  IF rb = "error" THEN [s |-> st, flow |-> fw, log |-> lg, stack |-> sk, res |-> "err", calls |-> cb, stop |-> FALSE, top |-> FALSE]
-  ELSE IF ~Completes(a) THEN [s |-> [st EXCEPT !.finished = (rb = "stop")], flow |-> fw, log |-> lg, stack |-> sk, res |-> "err", calls |-> cb, stop |-> rb = "stop", top |-> FALSE]
+  IF rb = "error" THEN [s |-> st, flow |-> fw, log |-> lg, stack |-> sk, res |-> "err", calls |-> cb, stop |-> FALSE, top |-> FALSE, pop |-> FALSE]
+  ELSE IF ~Completes(a) THEN [s |-> [st EXCEPT !.finished = (rb = "stop")], flow |-> fw, log |-> lg, stack |-> sk, res |-> "err", calls |-> cb, stop |-> rb = "stop", top |-> FALSE, pop |-> FALSE]
   ELSE
   LET s2 == Effect(st, a, FL)
       fe == FlowEvent(st, a, FL)
       fw2 == fw \o fe
       lg2 == IF fe = <<>> THEN lg ELSE AddTrace(lg, fe[1])
       sk2 == IF a.kind = "call" THEN Append(sk, a.next)
-             ELSE IF a.kind = "ret" /\ ~TopLevelRet(st, a) /\ sk # <<>> THEN SubSeq(sk, 1, Len(sk) - 1) ELSE sk
+             ELSE IF (a.kind = "pop" \/ (a.kind = "ret" /\ ~TopLevelRet(st, a))) /\ sk # <<>> THEN SubSeq(sk, 1, Len(sk) - 1) ELSE sk
       LA == RunChain(HA, 1)
       ra == PhaseResult(LA, HA)
       ca == [i \in 1..Len(LA) |-> [hid |-> LA[i], when |-> "after"]]
       stp == rb = "stop" \/ ra = "stop"
       s3 == IF stp THEN [s2 EXCEPT !.finished = TRUE] ELSE s2
   IN [s |-> s3, flow |-> fw2, log |-> lg2, stack |-> sk2, res |-> IF ra = "error" THEN "err" ELSE "ok",
-      calls |-> cb \o ca, stop |-> stp, top |-> TopLevelRet(st, a)]
+      calls |-> cb \o ca, stop |-> stp, top |-> TopLevelRet(st, a), pop |-> a.kind = "pop"]
 
 Apply(r, op) ==
   /\ s' = r.s /\ flow' = r.flow /\ log' = r.log /\ stack' = r.stack
   /\ lastcalls' = r.calls
   /\ nsucc' = nsucc + (r.s.count - s.count)
-  /\ stopped' = (stopped \/ r.stop) /\ toplevel' = (toplevel \/ r.top)
+  /\ stopped' = (stopped \/ r.stop) /\ toplevel' = (toplevel \/ r.top) /\ popped' = (popped \/ r.pop)
   /\ last' = [op |-> op, res |-> r.res] /\ hist' = Append(hist, [op |-> op, res |-> r.res])
 
 Step == /\ Len(stack) <= MaxCalls
@@ -92,7 +95,7 @@ RECURSIVE RunM(_, _, _, _, _)
 RunM(st, fw, lg, sk, fuel) ==
   LET r == StepM(st, fw, lg, sk) IN
   IF r.res = "err" \/ r.s.finished \/ fuel = 0 \/ Len(r.stack) > MaxCalls THEN [r EXCEPT !.calls = <<>>]
-  ELSE RunM(r.s, r.flow, r.log, r.stack, fuel - 1)
+  ELSE LET q == RunM(r.s, r.flow, r.log, r.stack, fuel - 1) IN [q EXCEPT !.pop = q.pop \/ r.pop, !.top = q.top \/ r.top]
 Fuel == IF s.max = NoLimit THEN 3 * N + 2 ELSE s.max + 1
 Execute == /\ Len(stack) <= MaxCalls
            /\ s.max # NoLimit                        \* without a limit a looping program never returns
@@ -111,7 +114,8 @@ C18_Levels == \A i \in 1..Len(log) :
                  log[i].level = LET RECURSIVE D(_)
                                     D(j) == IF j = 0 THEN 0 ELSE D(j - 1) + Delta(log[j].var)
                                 IN D(i - 1)
-C18_CallStack == Len(CallStack(flow)) >= 0 /\ (toplevel \/ Len(CallStack(flow)) = 1 + Len(stack) \/ Len(CallStack(flow)) = Len(stack))
+C18_CallStack == Len(CallStack(flow)) >= 0 /\ (toplevel \/ popped \/ Len(CallStack(flow)) = 1 + Len(stack) \/ Len(CallStack(flow)) = Len(stack))
+C11_Depth == s.depth = Len(stack)          \* the loop state's stack height is the reference machine's stack
 
 \* on every edge
 EdgeLaws ==
